@@ -19,6 +19,8 @@ EXPLANATION = (
     "and behaviour T(x) are snapshotted before and compared after; deep copies are modified in place in either direction with a symbolic "
     "increment that must not appear in the other side's terms."
 )
+NONTRIVIAL_FROM = "storage_comparisons"
+NONTRIVIAL_RULE = "For this property an unchanged argument has syntactically identical before/after terms (trivial for the solver by construction); storage_comparisons counts the argument elements whose symbolic term was snapshotted before and compared after a call of the real function, and is added to distinct_nontrivial."
 ASSUMPTIONS = [
     "one argument recipe per function (D = 2, small shapes; D = 3 for a subset in thorough); functions without a recipe are listed under 'uncovered' in the evidence notes",
     "explicit in-place variants (trailing underscore, inplace=True, out=) are exempt",
@@ -49,6 +51,7 @@ def _snapshot(ctx, tensors):
 def _compare(ctx, tensors, snaps, what):
     for k, (t, (terms, vals)) in enumerate(zip(tensors, snaps)):
         if ctx.mode == "sym":
+            ctx.counters["storage_comparisons"] = ctx.counters.get("storage_comparisons", 0) + int(t.numel())
             ctx.eq(t, terms, f"{what}: tensor argument {k} unchanged")
         else:
             ctx.eq(t, vals, f"{what}: tensor argument {k} unchanged")
